@@ -16,6 +16,56 @@ tokio::task_local! {
     pub static PID: u32;
 }
 
+tokio::task_local! {
+    /// the gate controller of the run the current task belongs to (for scheduling points outside storage operations)
+    pub static CTL: Arc<Mutex<Ctl>>;
+}
+
+/// Wait at the gate for a grant (used by storage operations and by akd's guarded scheduling points)
+pub async fn gate_wait(ctl: &Arc<Mutex<Ctl>>, pid: u32, kind: &'static str, detail: String) {
+    {
+        let mut c = ctl.lock().unwrap();
+        if !(c.gate_enabled && pid != 0) {
+            return;
+        }
+        c.waiting.insert(pid, (kind, detail));
+    }
+    loop {
+        {
+            let mut c = ctl.lock().unwrap();
+            if c.grants.front() == Some(&pid) {
+                c.grants.pop_front();
+                c.waiting.remove(&pid);
+                break;
+            }
+            if !c.gate_enabled {
+                c.waiting.remove(&pid);
+                break;
+            }
+        }
+        tokio::task::yield_now().await;
+    }
+}
+
+/// Installs the scheduling hook into akd (cfg facebook_akd_verif): a scheduling point of a gated task
+/// waits for a grant exactly like a storage operation does.
+#[cfg(facebook_akd_verif)]
+pub fn install_sched_hook() {
+    akd::verif_hooks::set_sched_hook(Some(Arc::new(|name: &'static str| {
+        Box::pin(async move {
+            let pid = current_pid();
+            if let Ok(ctl) = CTL.try_with(|c| c.clone()) {
+                let on = ctl.lock().unwrap().sched_points;
+                if on {
+                    gate_wait(&ctl, pid, "sched_point", name.to_string()).await;
+                }
+            }
+        })
+    })));
+}
+#[cfg(not(facebook_akd_verif))]
+pub fn install_sched_hook() {}
+
 pub fn current_pid() -> u32 {
     PID.try_with(|p| *p).unwrap_or(0)
 }
@@ -56,6 +106,8 @@ pub struct Ctl {
     /// when set, the COMPLETION of every gated operation waits for a grant of its own: the operation has
     /// taken effect in (or read from) the database but its result has not reached the caller yet
     pub gate_post: bool,
+    /// akd's guarded scheduling points take part in the gate
+    pub sched_points: bool,
 }
 
 #[derive(Clone)]
